@@ -221,16 +221,18 @@ pub fn run(tier: Tier, shard: Shard, stats: &mut Stats) {
             }
         }
     }
-    // custom keys: receive the current state when written, ticked and reset together with the bar
+    // custom keys: receive the current state when written, ticked and reset together with the bar;
+    // every frame painted along the way shows the state and the elapsed time of that instant
+    let nops = 10u8;
     let mut seqs: Vec<Vec<u8>> = vec![vec![]];
-    let depth = if tier == Tier::Quick { 4 } else { 7 };
+    let depth = if tier == Tier::Quick { 4 } else { 6 };
     for _ in 0..depth {
         let mut next = Vec::new();
         for s in &seqs {
             if s.len() + 1 < seqs.last().map_or(0, |l| l.len()) {
                 continue;
             }
-            for o in 0..7u8 {
+            for o in 0..nops {
                 let mut d = s.clone();
                 d.push(o);
                 next.push(d);
@@ -240,24 +242,32 @@ pub fn run(tier: Tier, shard: Shard, stats: &mut Stats) {
     }
     seqs.sort();
     seqs.dedup();
-    for seq in seqs {
+    for start_hidden in [false, true] {
+    for seq in &seqs {
         case += 1;
         if !shard.owns(case) || seq.is_empty() {
+            continue;
+        }
+        // switching the target is only interesting for a bar that starts hidden
+        if !start_hidden && seq.contains(&9) {
             continue;
         }
         stats.evaluations += 1;
         stats.transitions += 1;
         clock::reset();
-        let names = ["tick", "inc(2)", "set_position(7)", "set_length(9)", "reset", "finish", "set_message"];
-        let hist: Vec<String> = std::iter::once("template [{k}]".to_string()).chain(seq.iter().map(|&o| names[o as usize].to_string())).collect();
+        let names = ["tick", "inc(2)", "set_position(7)", "set_length(9)", "reset", "finish", "set_message", "suspend(closure taking 2 s)", "println", "set_draw_target(visible)"];
+        let hist: Vec<String> = std::iter::once(format!("template [{{k}}] {{elapsed_precise}}{}", if start_hidden { ", bar created with a hidden target" } else { "" })).chain(seq.iter().map(|&o| names[o as usize].to_string())).collect();
         let probe = Probe::default();
         let log = probe.log.clone();
         let r = catch(|| {
-            let style = ProgressStyle::with_template("[{k}]").unwrap().with_key("k", probe.clone());
-            let pb = bar_on(&catcher, Some(10), style);
+            let style = ProgressStyle::with_template("[{k}] {elapsed_precise}").unwrap().with_key("k", probe.clone());
+            let pb = if start_hidden { indicatif::ProgressBar::with_draw_target(Some(10), indicatif::ProgressDrawTarget::hidden()).with_style(style) } else { bar_on(&catcher, Some(10), style) };
+            let want_now = |pb: &indicatif::ProgressBar| format!("[W pos={} len={:?} fin={} el={:?} eta={:?} ps={:?}] {}", pb.position(), pb.length(), pb.is_finished(), pb.elapsed(), pb.eta(), pb.per_sec(), indicatif::FormattedDuration(pb.elapsed()));
             let (mut ticks, mut resets) = (0usize, 0usize);
-            for &o in &seq {
+            let mut stale: Option<String> = None;
+            for (i, &o) in seq.iter().enumerate() {
                 clock::advance_ms(50);
+                catcher.take();
                 match o {
                     0 => {
                         pb.tick();
@@ -280,26 +290,42 @@ pub fn run(tier: Tier, shard: Shard, stats: &mut Stats) {
                         resets += 1
                     }
                     5 => pb.finish(),
-                    _ => {
+                    6 => {
                         pb.set_message("x");
                         ticks += 1
                     }
+                    7 => pb.suspend(|| clock::advance_ms(2000)),
+                    8 => pb.println("log"),
+                    _ => pb.set_draw_target(indicatif::ProgressDrawTarget::term_like(Box::new(catcher.clone()))),
+                }
+                // the frame this operation painted (if any): last line payload before the right-edge filler
+                let painted = catcher.take();
+                if painted.len() >= 2 && stale.is_none() {
+                    let line = &painted[painted.len() - 2];
+                    let want = want_now(&pb);
+                    if line.starts_with("[W") && *line != want {
+                        stale = Some(format!("operation #{i} ({}) painted {:?}, the bar's state at that instant is {:?}", names[o as usize], line, want));
+                    }
                 }
             }
+            if pb.is_hidden() {
+                pb.set_draw_target(indicatif::ProgressDrawTarget::term_like(Box::new(catcher.clone())));
+            }
             let lines = frame_lines(&catcher, &pb);
-            let want = format!("[W pos={} len={:?} fin={} el={:?} eta={:?} ps={:?}]", pb.position(), pb.length(), pb.is_finished(), pb.elapsed(), pb.eta(), pb.per_sec());
-            let last_reset_pos_ok = true;
+            let want = want_now(&pb);
             pb.abandon();
-            (lines, want, ticks, resets, last_reset_pos_ok)
+            (lines, want, ticks, resets, stale)
         });
         match r {
             Err(p) => stats.violation(Violation { class: format!("panic: {}", panic_class(&p)), config: "custom key".into(), history: hist, detail: p }),
-            Ok((lines, want, ticks, resets, _)) => {
+            Ok((lines, want, ticks, resets, stale)) => {
                 let l = log.lock().unwrap().clone();
                 let got_ticks = l.iter().filter(|e| e.starts_with("tick")).count();
                 let got_resets: Vec<&String> = l.iter().filter(|e| e.starts_with("reset")).collect();
                 let line = lines.first().cloned().unwrap_or_default();
-                if line != want {
+                if let Some(d) = stale {
+                    stats.violation(Violation { class: "frame: a frame painted by an operation does not show the state / elapsed time of that instant".into(), config: "custom key".into(), history: hist, detail: d });
+                } else if line != want {
                     stats.violation(Violation { class: "custom key: state passed to write() differs from the getters at draw time".into(), config: "custom key".into(), history: hist, detail: format!("rendered {:?} expected {:?}", line, want) });
                 } else if got_ticks != ticks {
                     stats.violation(Violation { class: "custom key: tracker not ticked once per tick of the bar".into(), config: "custom key".into(), history: hist, detail: format!("{got_ticks} tracker ticks for {ticks} bar ticks: {:?}", l) });
@@ -308,10 +334,11 @@ pub fn run(tier: Tier, shard: Shard, stats: &mut Stats) {
                 } else if got_resets.iter().any(|e| *e != "reset pos=0 finished=false") {
                     stats.violation(Violation { class: "custom key: tracker reset does not see the reset state of the bar".into(), config: "custom key".into(), history: hist, detail: format!("{:?}", l) });
                 } else {
-                    stats.state_outcome(hash_of(&(&line, ticks, resets)), true);
+                    stats.state_outcome(hash_of(&(&line, ticks, resets, start_hidden)), true);
                 }
             }
         }
+    }
     }
     stats.sample(json!(["template [{eta}]", "pos 999 len Some(1000000) status 0 elapsed 59500 ms prior updates 2"]));
     stats.sample(json!(["template [{k}]", "inc(2)", "reset", "tick", "finish"]));
@@ -321,7 +348,7 @@ pub fn meta(tier: Tier) -> Meta {
     let _ = tier;
     Meta {
         level: "exploration",
-        rule: "every documented key except the geometry/truncation keys (25 keys) alone in a template x 72 position/length pairs incl. 0, length<position, unknown length, 2^53+1, u64::MAX x 3 statuses x 3-5 frozen elapsed times (0.4 s .. 400 d) x 0-2 earlier updates x tick counts; rendered text must equal the public getter at the same frozen instant pushed through the public formatter; plus every sequence of <= 4 (6 thorough) operations from {tick, inc, set_position, set_length, reset, finish, set_message} on a bar with a recording ProgressTracker: state passed to write() equals the getters, one tracker tick per bar tick, one tracker reset per reset() seeing the reset state; distinct = (key, rendered text); non-trivial = non-zero position or elapsed > 0.4 s".into(),
+        rule: "every documented key except the geometry/truncation keys (25 keys) alone in a template x 72 position/length pairs incl. 0, length<position, unknown length, 2^53+1, u64::MAX x 3 statuses x 3-5 frozen elapsed times (0.4 s .. 400 d) x 0-2 earlier updates x tick counts; rendered text must equal the public getter at the same frozen instant pushed through the public formatter; plus every sequence of <= 4 (6 thorough) operations from {tick, inc, set_position, set_length, reset, finish, set_message, suspend with a closure that takes 2 s, println, set_draw_target(visible)} on a bar with a recording ProgressTracker and {elapsed_precise}, created visible or hidden: every frame painted by an operation and the final frame equal the getters of that instant, one tracker tick per bar tick, one tracker reset per reset() seeing the reset state; distinct = (key, rendered text); non-trivial = non-zero position or elapsed > 0.4 s".into(),
         assumptions: vec!["virtual clock frozen between the draw and the getter calls, so time-dependent keys are comparable exactly".into(), "percent may be computed from the f32 or the f64 quotient".into()],
         bounds: json!({"keys": KEYS.len() - 3}),
         exhaustive: true,
